@@ -119,7 +119,7 @@ def dataset(name):
     return pd.DataFrame(rows, columns=['load', 'cycles', 'fracture'])
 
 
-ANALYZERS = {'exact': ['Elementary', 'Probit'], 'exact10': ['Elementary', 'Probit'], 'flat': ['Elementary', 'Probit'], 'scatter': ['Elementary', 'Probit', 'MaxLikeFull'], 'mixed': ['Elementary', 'Probit', 'MaxLikeInf', 'MaxLikeFull']}
+ANALYZERS = {'exact': ['Elementary', 'Probit'], 'exact10': ['Elementary', 'Probit'], 'flat': ['Elementary', 'Probit', 'MaxLikeInf'], 'scatter': ['Elementary', 'Probit', 'MaxLikeFull'], 'mixed': ['Elementary', 'Probit', 'MaxLikeInf', 'MaxLikeFull']}
 TAU = {'Elementary': 2, 'Probit': 2, 'MaxLikeInf': 160, 'MaxLikeFull': 160}
 
 
@@ -164,6 +164,7 @@ def _walk(args):
     ls = cs = 0
     perm = list(range(len(base)))
 
+    import pylife.materialdata.woehler  # noqa (registers the fatigue_data accessor)
     unit = [1.0]
     # the finite/infinite transition load of the data set in MPa (the lowest load level with a fracture resp. the estimator's start value)
     try:
@@ -171,7 +172,7 @@ def _walk(args):
     except Exception:
         t0 = float(base['load'].min())
     t0 = t0 if t0 > 0 else float(base['load'].min())
-    UNITS = {1: 0.145037738, 2: 0.95 / t0, 3: 1.02 / t0, 4: 0.987654321}
+    UNITS = {1: 0.145037738, 2: 0.95 / t0, 3: 1.0000001 / t0, 4: 0.987654321}
 
     def current():
         df = base.iloc[perm].reset_index(drop=True).copy()
@@ -191,7 +192,7 @@ def _walk(args):
             return rec
         rec, gain, raw = analyze(current(), analyzer)
         rec = normal(rec)
-        tr = {'tau': TAU[analyzer], 'check_scatter': True, 'exact_slope': mlog(3.0) if ds == 'exact' else mlog(5.0) if ds == 'exact10' else 0, 'lnL_gain_micro': gain, 'start': rec, 'events': []}
+        tr = {'tau': TAU[analyzer], 'tauND': TAU[analyzer] if not analyzer.startswith('MaxLike') else int(TAU[analyzer] * max(1.0, float(raw['k_1']) if isinstance(raw['k_1'], float) else 1.0)), 'check_scatter': True, 'exact_slope': mlog(3.0) if ds == 'exact' else mlog(5.0) if ds == 'exact10' else 0, 'lnL_gain_micro': gain, 'start': rec, 'events': []}
         detail = [{'estimate': raw}]
         for a, arg in hist:
             if a == 'ScaleLoads':
